@@ -254,7 +254,7 @@ class DunderMixin:
 
     @binary_operation
     def __rrshift__(self, other: Any) -> Any:
-        return self._get_method("__pow__")(other)
+        return self._get_method("__rrshift__")(other)
 
     @binary_operation
     def __rshift__(self, other: Any) -> Any:
